@@ -28,6 +28,7 @@ func NewConnPipeIPC(c net.Conn, proto ProtocolInfo) ConnPipe {
 			proto:   proto,
 			options: make(map[string]interface{}),
 			maxrx:   0,
+			open:    true, // so that Close also aborts a handshake in progress
 		},
 	}
 	p.options[mangos.OptionMaxRecvSize] = 0
